@@ -220,6 +220,19 @@ var labelProp = vp.Register(vp.Prop[Case]{
 	},
 })
 
+// TestConcurrent (variant "conc", -race): the same sequential oracles, with the
+// cases of a batch checked from 8 goroutines at once, so that hidden shared
+// state behind functions that look pure (pools, package-level buffers,
+// in-place edits) shows as a data race or a wrong result.
+func TestConcurrent(t *testing.T) {
+	if vp.Variant() != "conc" {
+		t.Skip("runs in the conc variant (-race)")
+	}
+	vp.RunConcurrent(t, ipProp, 100, 64, 8)
+	vp.RunConcurrent(t, ipPortProp, 100, 64, 8)
+	vp.RunConcurrent(t, hostProp, 100, 64, 8)
+}
+
 func TestIP(t *testing.T)     { vp.Run(t, ipProp) }
 func TestIPPort(t *testing.T) { vp.Run(t, ipPortProp) }
 func TestHost(t *testing.T)   { vp.Run(t, hostProp) }
